@@ -18,10 +18,13 @@ PROFILES = {
     "C02": ["mix", "admit", "operator", "lease"],
     "C03": ["lease", "visible"],
     "C04": ["lease", "mix"],
-    "C05": ["visible", "lease"],
+    "C05": ["visible", "lease", "bulk"],
     "C12": ["admit", "mix"],
     "C14": ["operator", "mix"],
     "C13": ["mix", "operator", "admit", "lease", "visible"],
+}
+# profiles whose traces are long scripted histories: few traces per shard
+HEAVY = {"bulk": (1, 3)
 }
 
 
@@ -164,7 +167,8 @@ def check(prop, tier, res, replay=None):
             for be in ("memory", "sqlite"):
                 for pr in PROFILES[prop]:
                     for k in range(nseeds):
-                        shards.append((be, pr, sd * 100 + k, traces, ops, work, None))
+                        tr = traces if pr not in HEAVY else HEAVY[pr][0 if tier == "quick" else 1]
+                        shards.append((be, pr, sd * 100 + k, tr, ops, work, None))
         results = pmap(run_shard, shards)
         steps = 0
         kinds = {}
